@@ -327,7 +327,7 @@ func (e *engine) plan(prop string) (primary []*ssa.Function, err error) {
 		if !lab && !saf {
 			continue
 		}
-		if ct.External {
+		if ct.externalIn(prop) {
 			continue
 		}
 		if ct.Interface {
@@ -412,7 +412,7 @@ func (e *engine) check(prop string) *checkResult {
 		for label := range vc.callCount {
 			var callees []*ssa.Function
 			if ct := e.w.db.Contracts[label]; ct != nil {
-				if ct.External {
+				if ct.externalIn(prop) {
 					continue
 				}
 				if ct.Interface {
